@@ -251,6 +251,11 @@ func (ev *Evaluator) Eval(fn *ssa.Function, args []Val) (*Outcome, error) {
 					return nil, err
 				}
 			case *ssa.DebugRef, *ssa.RunDefers:
+			case *ssa.Defer:
+				// deferred calls are not modelled; only mutex releases are accepted silently
+				if f := in.Call.StaticCallee(); f == nil || !(f.String() == "(*sync.Mutex).Unlock" || f.String() == "(*sync.RWMutex).Unlock" || f.String() == "(*sync.RWMutex).RUnlock") {
+					return nil, &Undecided{in.Pos(), "deferred call other than a mutex release in " + fn.String()}
+				}
 			case ssa.Value:
 				v, err := ev.instr(env, in)
 				if err != nil {
